@@ -295,6 +295,19 @@ fn run_param_block(cfg: &Cfg, index: u64, stats: &mut Stats) {
     if rng.chance(1, 3) {
         defs.push("let unused = \"u\" that".to_string());
     }
+    // definitions whose *binder pattern* is annotated with aliases of the block (the right-hand side does not mention them)
+    for q in 0..rng.below(3) {
+        if aliases.is_empty() {
+            break;
+        }
+        let a1 = aliases[rng.below(aliases.len())].clone();
+        let a2 = aliases[rng.below(aliases.len())].clone();
+        defs.push(match rng.below(3) {
+            | 0 => format!("let (lo{q} : {a1}, hi{q} : {a2}) = ({}, {}) that", 30 + q, 40 + q),
+            | 1 => format!("let (single{q} : {a1}) = {} that", 50 + q),
+            | _ => format!("let ((lo{q} : {a1}), hi{q}) = ({}, \"s\") that", 60 + q),
+        });
+    }
     let mut body = "! exit 0".to_string();
     for i in (0..k).rev() {
         body = format!("do s{i} <- ! to_string p{i};\ndo l{i} <- ! append \"p{i}=\" s{i};\n! write_line l{i} {{ {body} }}");
